@@ -247,6 +247,8 @@ for ent, fns, props, what in (
     ("h_hs_setfrag", ["handshake_set_fragsize", "fragsize_check"], {"C06": "all"}, "handshake_set_fragsize and fragsize_check with an arbitrary reply: reads stay below the reply length"),
     ("h_hs_raw", ["handshake_raw_udp", "send_raw_udp_login", "send_raw"], {"C06": "all", "C19": "all"}, "handshake_raw_udp: address replies of exactly 5 / 17 bytes copied into the socket address, raw login carries the response for challenge + 1, raw mode only after comparing at least 20 received bytes with the response for challenge - 1")):
     G(name="cli_" + ent[2:], entry=ent, defs=["STUB_HANDSHAKE=1"], enforce=fns, props=props, what=what, **HS)
+G(name="cli_tunnel_tun", entry="h_tunnel_tun", defs=["STUB_TUNNEL=1"], enforce=["tunnel_tun", "send_raw_data", "send_raw"], props={"C01": "all", "C06": "safety"}, min_obl=20, cost=60, **CLI,
+  what="client tunnel_tun: while an upstream packet is in flight a packet read to drain the tun device leaves it untouched (position AND every data byte, ghost index) and sends nothing; otherwise exactly the bytes read are compressed, the packet gets zlib's length, fragment 0, offset 0, next sequence number, and its first fragment (DNS) or one raw frame is sent")
 
 LEVELS = {}
 TRUSTED_BASE = ["CBMC 6.11.0 (goto-cc front end, goto-instrument --dfcc contract instrumentation, symex)",
